@@ -30,6 +30,7 @@ def norm(s):
 def cases(tier, seed):
     base = shapes.space_depth2(tier, contexts=["def", "member_opt", "member_req", "ext_payload", "vec_item", "root"] if tier == "quick" else None)
     base += shapes.twins(tier)
+    base += shapes.order_pairs(tier)
     if tier != "quick":
         base += shapes.pairs(tier)
     sets = SETTINGS[:2] if tier == "quick" else SETTINGS
